@@ -70,4 +70,9 @@ CHECKS["C08"] = {
     "note": "Trusted: the pipe splitter and raw-markup flags of lex.go (self-tested), html.UnescapeString. Carriage returns are not generated (documented non-goal).",
     "technique": MBT,
 }
+CHECKS["C09"] = {
+    "text": "Every build history of the bounded grid model (all interleavings of the table-building calls: no rows, no header, empty header, zero-cell and ragged rows, rows extended after attach, separators anywhere), a second bounded model with items whose declared height/width disagree with their text, TLC -simulate walks of depth 30-40 and random longer sequences are each executed on the real library and followed by every renderer x every registered decoration (plus an unknown name and a custom one) x every entry point (method Render/RenderTo, package functions, auto.Render for every listed style) under recover; TLC validates for every call: no panic, and an error comes with empty text.",
+    "note": "Trusted: recover() in the driver as the panic detector. Exhaustive only within the bounds; longer histories are sampled.",
+    "technique": MBT,
+}
 NOT_APPLICABLE = {}
